@@ -92,18 +92,19 @@ Fixpoint props_beq (a b : list prop) : bool :=
   | _, _ => false
   end.
 
+(* rr_host / rr_port / rr_octets / rr_text read the rdata of an SRV / address / TXT record
+   (Model/Cache.v); the decoder only produces SRV records with SRV rdata etc. *)
 Definition sel_srv (inst host : bytes) (port : N) (d : dlv) : bool :=
   (r_type (dl_rr d) =? TY_SRV) && beq (r_name (dl_rr d)) inst
-  && match r_data (dl_rr d) with RSrv _ _ p h => beq h host && (p =? port) | _ => false end.
+  && beq (rr_host (dl_rr d)) host && (rr_port (dl_rr d) =? port).
 
 Definition sel_addr (host ip : bytes) (ifx : N) (d : dlv) : bool :=
   is_addr_type (r_type (dl_rr d)) && beq (lower (r_name (dl_rr d))) (lower host)
-  && match r_data (dl_rr d) with RAddr o => beq o ip | _ => false end
-  && (dl_if d =? ifx).
+  && beq (rr_octets (dl_rr d)) ip && (dl_if d =? ifx).
 
 Definition sel_txt (inst : bytes) (ps : list prop) (d : dlv) : bool :=
   (r_type (dl_rr d) =? TY_TXT) && beq (r_name (dl_rr d)) inst
-  && match r_data (dl_rr d) with RTxt t => props_beq (txt_props t) ps | _ => false end.
+  && props_beq (txt_props (rr_text (dl_rr d))) ps.
 
 Definition resolved_ok (prev cur : list dlv) (now : N) (r : resolved) : bool :=
   negb (is_nil (rs_host r)) && negb (is_nil (rs_addrs r))
